@@ -48,7 +48,11 @@ func AppendHandlers(ctx context.Context, info *RunInfo, handlers ...Handler) con
 	if !ok {
 		return InitCallbacks(ctx, info, handlers...)
 	}
-	return InitCallbacks(ctx, info, append(cbm.handlers, handlers...)...)
+	// never append to the parent's slice: sibling nodes running in parallel would share its spare capacity
+	nh := make([]Handler, 0, len(cbm.handlers)+len(handlers))
+	nh = append(nh, cbm.handlers...)
+	nh = append(nh, handlers...)
+	return InitCallbacks(ctx, info, nh...)
 }
 
 type Handle[T any] func(context.Context, T, *RunInfo, []Handler) (context.Context, T)
@@ -60,7 +64,10 @@ func On[T any](ctx context.Context, inOut T, handle Handle[T], timing CallbackTi
 	}
 
 	hs := make([]Handler, 0, len(mgr.handlers)+len(mgr.globalHandlers))
-	for _, handler := range append(mgr.handlers, mgr.globalHandlers...) {
+	all := make([]Handler, 0, len(mgr.handlers)+len(mgr.globalHandlers))
+	all = append(all, mgr.handlers...)
+	all = append(all, mgr.globalHandlers...)
+	for _, handler := range all {
 		timingChecker, ok_ := handler.(TimingChecker)
 		if !ok_ || timingChecker.Needed(ctx, mgr.runInfo, timing) {
 			hs = append(hs, handler)
